@@ -86,6 +86,15 @@ extern "C" void harness(void)
     auto e = NAMED_ALLOW_CALL(*pm, f(ANY(int))).RETURN(1);
     delete pm;
     BAL("C12.lock_released_after_mock_destruction");
+#elif VF_OP == 14     /* a SEQUENCED expectation outlives its mock and is released afterwards, other handles still in the sequence */
+    auto *pm = new M;
+    auto e0 = NAMED_ALLOW_CALL(m, f(0)).IN_SEQUENCE(s).RETURN(1);
+    { auto e1 = NAMED_REQUIRE_CALL(*pm, f(1)).IN_SEQUENCE(s).TIMES(AT_LEAST(0)).RETURN(1);
+      auto e2 = NAMED_ALLOW_CALL(m, f(2)).IN_SEQUENCE(s).RETURN(1);
+      delete pm;
+      BAL("C12.lock_released_after_mock_destruction");
+      e1.reset();
+      BAL("C12.lock_released_after_release_of_orphaned_expectation"); }
 #endif
   }
   BAL("C12.lock_released_after_teardown");
